@@ -6,7 +6,7 @@ CONSTANTS
   T0 = 1000
   MaxSw = 0
   ResetCfgs <- NoReset
-  MaxRecs = 5
+  MaxRecs = 4
   MaxRuns = 1
   MaxTrig = 2
   MaxExt = 0
